@@ -882,11 +882,33 @@ static void mode_limits(int argc, char **argv) {
  * with <= E edits is run under every schedule with <= P preemptions, with all monitors.  This is the same iterative
  * deviation bounding as for cuts, applied to content: it reaches error and hand-over paths many exchanges deep. */
 typedef struct etok { const char *d; uint32_t n; uint8_t gap; } etok;
+static etok base_tok_fwd(const char *t);
 #define T(s) { s, sizeof(s) - 1, 0 }
 static const etok QPOOL[] = { T("GET /a HTTP/1.1\r\n"), T("POST /p HTTP/1.1\r\n"), T("HEAD /h HTTP/1.1\r\n"), T("CONNECT h:1 HTTP/1.1\r\n"), T("GET /z\r\n"), T("Host: h\r\n"), T("Content-Length: 3\r\n"),
-    T("Transfer-Encoding: chunked\r\n"), T("Expect: 100-continue\r\n"), T("\r\n"), T("abc"), T("3\r\nabc\r\n"), T("0\r\n"), T("\x16\x03\x01\x00"), T("X\0Y\r\n"), T(" fold\r\n"), T("GET /a HT"), T("\r"), T("Content-Length: x\r\n"), T("3;ext=0123456789\r\nabc\r\n"), T("zz\r\n") };
+    T("Transfer-Encoding: chunked\r\n"), T("Expect: 100-continue\r\n"), T("\r\n"), T("abc"), T("3\r\nabc\r\n"), T("0\r\n"), T("\x16\x03\x01\x00"), T("X\0Y\r\n"), T(" fold\r\n"), T("GET /a HT"), T("\r"), T("Content-Length: x\r\n"), T("3;ext=0123456789\r\nabc\r\n"), T("zz\r\n"),
+    /* line-ending oddities inside ONE data chunk (a separate token would hide the look-ahead), invalid folding, LWS after the name */
+    T("X-L: a\n\rX-M: b\r\n"), T("X-C: y\r\r\n"), T("X-N: n\n"), T(" X-F: v\r\n"), T("X-S : v\r\n"),
+    /* request lines with odd delimiters (the URI-with-spaces recovery of the generic line parser), credentials of every base64 length class */
+    T("GET /a b HTTP/1.1\r\n"), T("GET\t/t\tHTTP/1.1\r\n"), T("GET  /d  HTTP/1.1 \r\n"), T("GET /x\x0bHTTP/1.1\r\n"), T("GET /only-uri \r\n"),
+    T("Authorization: Basic Q\r\n"), T("Authorization: Basic QQ\r\n"), T("Authorization: Basic QUJ\r\n"), T("Authorization: Basic QTpi\r\n"), T("Authorization: Basic\r\n"),
+    T("Authorization: Digest username=\"u\", x=y\r\n"), T("Authorization: Digest username=\"u\r\n") };
 static const etok RPOOL[] = { T("HTTP/1.1 200 OK\r\n"), T("HTTP/1.1 100 Continue\r\n"), T("HTTP/1.1 101 Sw\r\n"), T("HTTP/1.1 204 No\r\n"), T("HTTP/1.1 404 NF\r\n"), T("HTTP/1.1 407 PA\r\n"), T("Content-Length: 2\r\n"),
-    T("Content-Length: x\r\n"), T("Transfer-Encoding: chunked\r\n"), T("Content-Encoding: gzip\r\n"), T("\r\n"), T("ok"), T("2\r\nok\r\n"), T("0\r\n"), T("junk\r\n"), T("this is no chunk length line, is it?\r\n"), T(" fold\r\n"), T("HTTP/1.1 2"), T("\r"), T("2;ext=0123456789\r\nok\r\n"), T("  \t 2\r\nok\r\n") };
+    T("Content-Length: x\r\n"), T("Transfer-Encoding: chunked\r\n"), T("Content-Encoding: gzip\r\n"), T("\r\n"), T("ok"), T("2\r\nok\r\n"), T("0\r\n"), T("junk\r\n"), T("this is no chunk length line, is it?\r\n"), T(" fold\r\n"), T("HTTP/1.1 2"), T("\r"), T("2;ext=0123456789\r\nok\r\n"), T("  \t 2\r\nok\r\n"),
+    T("X-L: a\n\rX-M: b\r\n"), T("X-C: y\r\r\n"), T("X-N: n\n"), T(" X-F: v\r\n"), T("\n\r\r\n\r\n") };
+/* multipart material: body lines as self-framed HTTP chunks, and Content-Type spellings for the boundary parser; used with the multipart bases only
+ * (pool selection by base: see mp_pool) */
+static const char *const MPPOOL_S[] = {
+    "chunk:--B\r\n", "chunk:--B--\r\n", "chunk:--B  \r\n", "chunk:--Bx\r\n", "chunk:--B--x\r\n", "chunk:--b\r\n", "chunk:\r\n", "chunk:\n", "chunk:va\r\n", "chunk:\r\n--B\r\n", "chunk:--B",
+    "chunk:Content-Disposition: form-data; name=\"a\"\r\n", "chunk:Content-Disposition: form-data; name=\"a\"; name=\"b\"\r\n", "chunk:Content-Disposition: form-data; name=a\r\n",
+    "chunk:Content-Disposition: attachment\r\n", "chunk:Content-Disposition: form-data; name=\"unterminated\r\n", "chunk:Content-Disposition: form-data; name=\"q\\\"q\"; filename=\"x\"\r\n",
+    "chunk:Content-Disposition: form-data; filename=\"only.txt\"\r\n", "chunk:Content-Disposition:form-data;name=\"t\";\r\n", "chunk:Content-Disposition: form-data; name=\"a\" junk\r\n",
+    "chunk:NoColonHeader\r\n", "chunk:: empty name\r\n", "chunk:X-N : v\r\n", "chunk: folded\r\n", "chunk:Content-Type: text/plain\r\n", "chunk:Content-Type: text/plain\r\nX-Two: lines\r\n",
+    "Content-Type: multipart/form-data; boundary=\"B\"\r\n", "Content-Type: multipart/form-data; boundary = B\r\n", "Content-Type: multipart/form-data; boundary=B; x=y\r\n", "Content-Type: multipart/form-data; boundary=\r\n",
+    "Content-Type: multipart/form-data; BOUNDARY=B\r\n", "Content-Type: multipart/form-data; boundary=B'\r\n", "Content-Type: multipart/form-data\r\n", "Content-Type: multipart/form-data; boundary=\"B\r\n",
+    "Content-Type: multipart/form-data; boundary=B boundary=C\r\n", "Content-Type: multipart/mixed; boundary=B\r\n", "Content-Type: multipart/form-data;boundary=B,x\r\n", "Content-Type: multipart/form-data; boundary= B \r\n" };
+#define NMPP ((int) (sizeof MPPOOL_S / sizeof MPPOOL_S[0]))
+static etok MPPOOL[64]; static int mp_ready;
+static void mp_init(void) { if (mp_ready) return; mp_ready = 1; for (int i = 0; i < NMPP; i++) MPPOOL[i] = base_tok_fwd(MPPOOL_S[i]); }
 #define NQP ((int) (sizeof QPOOL / sizeof QPOOL[0]))
 #define NRP ((int) (sizeof RPOOL / sizeof RPOOL[0]))
 typedef struct ebase { const char *name; const char *q[24]; const char *r[24]; } ebase;   /* NULL-terminated token lists (text tokens only) */
@@ -914,6 +936,10 @@ static const ebase BASES[] = {
     { "urlencoded body", { "POST /u?x=1 HTTP/1.1\r\n", "Host: h\r\n", "Content-Type: application/x-www-form-urlencoded\r\n", "Content-Length: 7\r\n", "\r\n", "a=1&", "b=2" }, { "HTTP/1.1 200 OK\r\n", "Content-Length: 0\r\n", "\r\n" } },
     { "multipart body", { "POST /m HTTP/1.1\r\n", "Host: h\r\n", "Content-Type: multipart/form-data; boundary=B\r\n", "Transfer-Encoding: chunked\r\n", "\r\n", "3d\r\n--B\r\nContent-Disposition: form-data; name=\"a\"\r\n\r\nv\r\n--B--\r\n\r\n", "0\r\n", "\r\n" },
                         { "HTTP/1.1 200 OK\r\n", "Content-Length: 0\r\n", "\r\n" } },
+    { "multipart, one line per chunk", { "POST /m HTTP/1.1\r\n", "Host: h\r\n", "Content-Type: multipart/form-data; boundary=B\r\n", "Transfer-Encoding: chunked\r\n", "\r\n",
+          "chunk:--B\r\n", "chunk:Content-Disposition: form-data; name=\"a\"\r\n", "chunk:\r\n", "chunk:va\r\n", "chunk:--B\r\n",
+          "chunk:Content-Disposition: form-data; name=\"f\"; filename=\"f.txt\"\r\n", "chunk:Content-Type: text/plain\r\n", "chunk:\r\n", "chunk:file data\r\n", "chunk:--B--\r\n", "0\r\n", "\r\n" },
+        { "HTTP/1.1 200 OK\r\n", "Content-Length: 0\r\n", "\r\n" } },
     { "!gzip response, data not gzip", { "GET /g HTTP/1.1\r\n", "Host: h\r\n", "\r\n" }, { "HTTP/1.1 200 OK\r\n", "Content-Encoding: gzip\r\n", "Content-Length: 24\r\n", "\r\n", "not gzip at ", "all, really!" } },
     { "!gzip response until close, data not gzip", { "GET /g HTTP/1.0\r\n", "\r\n" }, { "HTTP/1.0 200 OK\r\n", "Content-Encoding: gzip\r\n", "\r\n", "not gzip at ", "all, really!" } },
     { "gzip response", { "GET /g HTTP/1.1\r\n", "Host: h\r\n", "\r\n" }, { "HTTP/1.1 200 OK\r\n", "Content-Encoding: gzip\r\n", "Content-Length: 29\r\n", "\r\n", "hex:1f8b0800000000000203cb48cdc9", "hex:c957c8c04e0200f6d253381d000000" } },
@@ -932,6 +958,7 @@ static void edits_cfg_menu(int idx, hx_cfgspec *c) {
         case 3: c->auto_destroy = 1; c->req_decomp = 1; c->parsers = 0; c->personality = HTP_SERVER_MINIMAL; break;
         case 4: c->res_decomp = 0; c->parsers = 0; c->personality = HTP_SERVER_APACHE_2; break;
         case 5: c->field_limit_hard = 24; c->max_tx = 2; c->auto_destroy = 1; break;
+        case 30: c->extract_files = 1; break;                        /* multipart / PUT file extraction to disk (edits mode only) */
         default: c->personality = pers[(idx - 6) % 8]; c->auto_destroy = (uint8_t) ((idx - 6) / 8 & 1); break;
     }
 }
@@ -1018,6 +1045,13 @@ static int apply_edit(etok *L, int *n, const etok *pool, int npool, int e) {
 static int n_edits_of(int len, int npool) { return (len + 1) * npool + len + len + len * npool + len + len + len; }
 /* a token written "hex:..." is binary; it is decoded once into an arena */
 static etok base_tok(const char *t) {
+    if (!strncmp(t, "chunk:", 6)) {            /* "chunk:<text>" = one HTTP chunk carrying exactly <text> (so that edits keep the HTTP framing intact) */
+        static struct { const char *src; char *bin; uint32_t n; } cm[64]; static int ncm;
+        for (int i = 0; i < ncm; i++) if (cm[i].src == t) return (etok) { cm[i].bin, cm[i].n, 0 };
+        size_t L = strlen(t + 6); char *b = malloc(L + 24); int h = sprintf(b, "%zx\r\n", L); memcpy(b + h, t + 6, L); memcpy(b + h + L, "\r\n", 2);
+        if (ncm < 64) { cm[ncm].src = t; cm[ncm].bin = b; cm[ncm].n = (uint32_t) (h + L + 2); ncm++; }
+        return (etok) { b, (uint32_t) (h + L + 2), 0 };
+    }
     if (strncmp(t, "hex:", 4)) return (etok) { t, (uint32_t) strlen(t), 0 };
     static struct { const char *src; char *bin; uint32_t n; } memo[16]; static int nmemo;
     for (int i = 0; i < nmemo; i++) if (memo[i].src == t) return (etok) { memo[i].bin, memo[i].n, 0 };
@@ -1026,15 +1060,18 @@ static etok base_tok(const char *t) {
     if (nmemo < 16) { memo[nmemo].src = t; memo[nmemo].bin = b; memo[nmemo].n = (uint32_t) n; nmemo++; }
     return (etok) { b, (uint32_t) n, 0 };
 }
-static void load_base(const ebase *b) { NEQ = NER = 0; for (int i = 0; b->q[i]; i++) EQ[NEQ++] = base_tok(b->q[i]); for (int i = 0; b->r[i]; i++) ER[NER++] = base_tok(b->r[i]); }
+static etok base_tok_fwd(const char *t) { return base_tok(t); }
+static const etok *QP; static int nQP;      /* request-side pool of the current base: the multipart material for the multipart bases */
+static void load_base(const ebase *b) {
+    mp_init(); if (!strncmp(b->name, "multipart, one line", 19)) { QP = MPPOOL; nQP = NMPP; } else { QP = QPOOL; nQP = NQP; } NEQ = NER = 0; for (int i = 0; b->q[i]; i++) EQ[NEQ++] = base_tok(b->q[i]); for (int i = 0; b->r[i]; i++) ER[NER++] = base_tok(b->r[i]); }
 static void add_edit_exchanges(int E) {
     for (int b = 0; b < NBASES; b++) {
         load_base(&BASES[b]);
-        int e1q = n_edits_of(NEQ, NQP), e1r = n_edits_of(NER, NRP);
+        int e1q = n_edits_of(NEQ, nQP), e1r = n_edits_of(NER, NRP);
         if (!E && BASES[b].name[0] == '!') continue;          /* not a well-formed exchange when all request bytes are delivered first (bad coding, client frames before the 101) */
         for (int e1 = -1; e1 < (E ? e1q + e1r : 0); e1++) {
             load_base(&BASES[b]);
-            if (e1 >= 0) { if (e1 < e1q) apply_edit(EQ, &NEQ, QPOOL, NQP, e1); else apply_edit(ER, &NER, RPOOL, NRP, e1 - e1q); }
+            if (e1 >= 0) { if (e1 < e1q) apply_edit(EQ, &NEQ, QP, nQP, e1); else apply_edit(ER, &NER, RPOOL, NRP, e1 - e1q); }
             int gap = 0;
             for (int k = 0; k < NEQ; k++) gap |= EQ[k].gap;
             for (int k = 0; k < NER; k++) gap |= ER[k].gap;
@@ -1054,25 +1091,27 @@ static void mode_edits(int argc, char **argv) {
     int cfgi = atoi(hx_arg(argc, argv, "--cfg", "0"));
     edits_cfg_menu(cfgi, &ECFG); EDEVS = atoi(hx_arg(argc, argv, "--devs", "0")); EFAULTS = atoi(hx_arg(argc, argv, "--faults", "0"));
     int maxbase = atoi(hx_arg(argc, argv, "--maxbase", "1000"));           /* only the first N bases (the deviation product is large) */
+    const char *onlybase = hx_arg(argc, argv, "--onlybase", NULL);      /* restrict to the bases whose name contains this text */
     for (int b = 0; b < NBASES && b < maxbase; b++) {
+        if (onlybase && !strstr(BASES[b].name, onlybase)) continue;
         load_base(&BASES[b]);
         int nq0 = NEQ, nr0 = NER;
-        int e1q = n_edits_of(nq0, NQP), e1r = n_edits_of(nr0, NRP);
+        int e1q = n_edits_of(nq0, nQP), e1r = n_edits_of(nr0, NRP);
         /* 0 edits */
         if (edit_counter++ % hx_shard_n == hx_shard_i) { snprintf(edit_desc, sizeof edit_desc, "base \"%s\", no edit", BASES[b].name); edits_schedules(P); }
         for (int e1 = 0; e1 < (E >= 1 ? e1q + e1r : 0); e1++) {
             if (edit_counter++ % hx_shard_n != hx_shard_i && E < 2) continue;
             int mine = ((edit_counter - 1) % hx_shard_n == hx_shard_i);
             load_base(&BASES[b]);
-            if (e1 < e1q) apply_edit(EQ, &NEQ, QPOOL, NQP, e1); else apply_edit(ER, &NER, RPOOL, NRP, e1 - e1q);
+            if (e1 < e1q) apply_edit(EQ, &NEQ, QP, nQP, e1); else apply_edit(ER, &NER, RPOOL, NRP, e1 - e1q);
             if (mine) { snprintf(edit_desc, sizeof edit_desc, "base \"%s\", edit #%d (%s list)", BASES[b].name, e1, e1 < e1q ? "request" : "response"); edits_schedules(P); if (hx_deadline_hit()) return; }
             if (E >= 2) {
                 etok sq[40], sr[40]; int snq = NEQ, snr = NER; memcpy(sq, EQ, sizeof sq); memcpy(sr, ER, sizeof sr);
-                int e2q = n_edits_of(snq, NQP), e2r = n_edits_of(snr, NRP);
+                int e2q = n_edits_of(snq, nQP), e2r = n_edits_of(snr, NRP);
                 for (int e2 = 0; e2 < e2q + e2r; e2++) {
                     if (edit_counter++ % hx_shard_n != hx_shard_i) continue;
                     memcpy(EQ, sq, sizeof sq); memcpy(ER, sr, sizeof sr); NEQ = snq; NER = snr;
-                    if (e2 < e2q) apply_edit(EQ, &NEQ, QPOOL, NQP, e2); else apply_edit(ER, &NER, RPOOL, NRP, e2 - e2q);
+                    if (e2 < e2q) apply_edit(EQ, &NEQ, QP, nQP, e2); else apply_edit(ER, &NER, RPOOL, NRP, e2 - e2q);
                     if (NEQ > 38 || NER > 38) continue;
                     snprintf(edit_desc, sizeof edit_desc, "base \"%s\", edits #%d then #%d", BASES[b].name, e1, e2);
                     edits_schedules(P > 1 ? 1 : P);          /* double edits: <= 1 preemption */
